@@ -8,7 +8,7 @@ HOOK_COMMITS = ["9deeead"]
 # property -> (level, technique, level text, level note, design ref)
 CLAIMED = {
  "C19": ("other",
-         "runtime reflection on the regenerated exported API surface (type identity of constant-gated parameters, closedness of safe types) plus dynamic taint probing of every exported function and method",
+         "runtime reflection on the regenerated exported API surface (type identity of constant-gated parameters, exported constants, closedness of safe types) plus dynamic taint probing of every exported function and method (also through run-time file systems) and an override probe of the engine's own pipeline functions",
          "The registry of exported functions/types/variables/aliases is regenerated from /repo's sources at every check and linked in; the monitor observes in the running binary that every reviewed trusted-text parameter has an unexported library-defined string type that nothing exported exposes, that safe types are closed structs, no other exported type (nor string, []byte or a look-alike struct) is convertible to a safe type, and that no exported function or method returns a safe-type value containing a hostile caller string verbatim; ParseFS patterns are checked for confinement. That the compiler rejects non-constant arguments is inferred from the observed types under the Go specification (not observable at run time); the harness also contains, and executes without reflection, the generic-helper program that defeats this gating on Go >= 1.18 (known finding K27).",
          "Trusted: Go assignability/export rules (stated assumption); policy/api_surface.json (reviewed list). A compile-time property cannot be observed by executing code; only its run-time-visible premises are.",
          "DESIGN.md §5 C19"),
@@ -24,18 +24,18 @@ CLAIMED = {
          "DESIGN.md §5 C05"),
  "C06": ("exploration",
          "runtime monitor over recorded API histories: every execution compared (bytes, error-or-not) with the same call on a fresh set rebuilt from the definition calls only",
-         "Histories of first and repeated executions of members that share helpers across contexts; the replay reference isolates exactly the effect of history, which is what the property forbids.",
+         "Histories of first and repeated executions of members that share helpers across contexts; the replay reference isolates exactly the effect of history, which is what the property forbids. Further scenarios: every order of first executions of small sets, templates named like (or calling) the context-specific copies whose names are read from DefinedTemplates(), histories near the analysis budget.",
          "Trusted: determinism of the engine on fresh objects (checked: repeated calls are part of the histories).",
          "DESIGN.md §5 C06"),
  "C07": ("exploration",
          "runtime monitor over recorded API histories with an abstract set/lineage model: Parse-after-Execute and Clone-after-Execute must fail; executions equal the per-lineage replay reference",
-         "Histories interleave New (of fresh and existing names, before and after execution, with parsing into the result and into the replaced stale handle), Parse, file-based parsing, Clone (several generations), redefinitions on either side, Lookup, Templates and Execute*; the model decides which calls must fail, the replay reference (definition calls of the handle's own lineage only) exposes any leakage between original and clone or any late Parse that took effect.",
+         "Histories interleave New (of fresh and existing names, before and after execution, with parsing into the result and into the replaced stale handle), Parse, file-based parsing, Clone (several generations), redefinitions on either side, Lookup, Templates and Execute*; the model decides which calls must fail, the replay reference (definition calls of the handle's own lineage only) exposes any leakage between original and clone or any late Parse that took effect. Because a reference that replays Clone and Parse cannot see defects of those calls themselves, three more references are compared: every Clone replaced by a set rebuilt from the definitions made before it (the engine's Clone is not called), an unrelated New+Parse made through the handle just before the call, and Execute against ExecuteTemplate of the handle's own name. A Parse racing with the first Execute on another goroutine must be explained by one of the two sequential orders.",
          "Trusted: the abstract model (a set is frozen by the first Execute* call made on any of its handles; New(name)/file-based parsing before that disassociate handles of the name; New after that creates a non-member).",
          "DESIGN.md §5 C07"),
  "C08": ("exploration",
          "runtime monitor: every API call of generated hostile histories runs under recover with a journal and a watchdog; panics, worker deaths and non-returning calls are the refuting events",
-         "The widest template grammar and call sequences that keep going after errors; one child process per shard journals each history before running it, so a fatal error leaves its witness.",
-         "Trusted: Go's recover semantics; a 60 s wall-clock watchdog per history only ends the worker, the verdict comes from the journalled case.",
+         "The widest template grammar and call sequences that keep going after errors; one child process per shard journals each history before running it, so a fatal error leaves its witness. Deep histories probe the bounds of the analysis (nested loops with and without calls, 300000 nested ifs, much text in loops, long template chains) and data that points to itself.",
+         "Trusted: Go's recover semantics; a 60 s wall-clock watchdog per history only ends the worker; the journalled case is then run alone in a fresh process (4 min) and counts as a violation only if it fails or hangs there too, otherwise the run is inconclusive for that worker.",
          "DESIGN.md §5 C08"),
  "C03": ("exploration",
          "runtime monitor: typed-vs-plain differential per sanitization cell + token-structure and decoded-value check of every attribute cell (independent tokenizer)",
@@ -55,12 +55,12 @@ CLAIMED = {
  "C01": ("exploration",
          "runtime monitor: independent WHATWG tokenizer compares the token structure of hostile / inert / author renderings of generated templates; marker location",
          "Every accepted generated template is executed with hostile and inert assignments; three oracles (data vs inert structure, engine vs text/template rendering of the author's markup, marker containment) judge each execution in three tree-builder modes. Reach comes from the grammar (lexical variants, special elements, control flow that tears tags, helpers) and the edge battery; nothing is claimed for templates or data not generated.",
-         "Trusted: htmltok (self-tested), text/template as renderer of the author's markup; hostile and inert assignments share truthiness and list lengths. Known findings K01 (abrupt comments only), K16, K17, K21, K28 are excluded by the syntactic predicates stated in KNOWN_FINDINGS.txt.",
+         "Trusted: htmltok (self-tested), text/template as renderer of the author's markup; hostile and inert assignments share truthiness and list lengths. Known findings K01 (abrupt comments only), K16, K17, K21 are excluded by the syntactic predicates stated in KNOWN_FINDINGS.txt (K28 was repaired and its exclusion removed). A torn-text stream splits static text with template comments.",
          "DESIGN.md §5 C01"),
  "C02": ("exploration",
          "runtime monitor: marker location + whole-value scheme scan of every successful hostile execution (independent tokenizer, character-reference decoder, WHATWG scheme and srcset parsers)",
-         "A systematic family (47 element/attribute targets x 2 quotings x 26 static prefixes x 33 shapes of dynamic parts, dangerous strings split over the parts) plus grammar-generated templates; each output is tokenized, every marker located, every data-dependent URL attribute decoded and scanned. Violations are code contexts reached by plain strings or a javascript scheme.",
-         "Trusted: htmltok + DecodeAttrValue, refs.Scheme/Srcset/SafeTRUPrefix; static prefixes are read off the inert execution of the same template. Known finding K14 excluded as stated in KNOWN_FINDINGS.txt.",
+         "A systematic family (47 element/attribute targets x 2 quotings x 30 static prefixes x 43 shapes of dynamic parts, half of the cells also with their static text torn by template comments, dangerous strings split over the parts) plus grammar-generated templates; each output is tokenized, every marker located, every data-dependent URL attribute decoded and scanned. Violations are code contexts reached by plain strings or a javascript scheme.",
+         "Trusted: htmltok + DecodeAttrValue, refs.Scheme/Srcset/SafeTRUPrefix; static prefixes are read off the inert execution of the same template. Outputs are read by three tokenizer modes (plain, scripting for noscript, foreign content for svg/math). Known finding K14 was repaired and its exclusion removed.",
          "DESIGN.md §5 C02"),
  "C11": ("exploration",
          "runtime monitor: WHATWG scheme scanner + character-reference decoder observe every URLSanitized result over exhaustive case-folding/insertion families and seeded URL soups",
